@@ -1511,6 +1511,47 @@ def search_histories(ctx):
                 break
 
 
+HELPER_RAW = {
+    'size': [['-8 -8 -8', '8 8 8'], ['16 16 16'], ['-8.0 -8 -8', '8 8 8']], 'bbox': [['-4 -4 0', '4 4 16']],
+    'color': [['255 128 0'], ['255  128 0'], ['1.0 1 1']], 'sphere': [[], ['radius'], ['radius', '255 0 0']],
+    'line': [['255 255 255', 'targetname', 'target'], ['255 255 255', 'a', 'b', 'c', 'd']],
+    'frustum': [[], ['fov', 'near', 'far', 'color', '-1']], 'cylinder': [['255 255 255', 'a', 'b', 'r', 'c', 'd', 'r2']],
+    'origin': [[], ['origin'], ['pt']], 'vecline': [['pt']], 'sidelist': [[], ['sides']], 'wirebox': [['mins', 'maxs']],
+    'obb': [['mins', 'maxs']], 'iconsprite': [[], ['editor/x.vmt'], ['"editor/x.vmt"']], 'studio': [[], ['models/x.mdl']],
+    'studioprop': [[], ['m.mdl']], 'lightprop': [['m.mdl']], 'lightcone': [[], ['a', 'b', 'c', '1.0']], 'keyframe': [[], ['x']],
+    'appliesto': [['HL2', 'EP1'], ['hl2']], 'orderby': [['b', 'a']],
+}
+
+
+def search_helpers(ctx):
+    """The typed helpers of _fgd_helpers.py re-normalise raw arguments (Vec formatting, defaults); the entity model
+    keeps a helper as (name, exported arguments). What the model needs is that EXPORTED arguments are a fixed point:
+    parse(h.export()).export() == h.export(), and that the exported arguments survive the generic split/strip."""
+    from srctools.fgd import HelperTypes, HELPER_IMPL
+    for ht in HelperTypes:
+        if ht.value in ('base', 'autovis'):
+            continue
+        for raw in HELPER_RAW.get(ht.value, [[]]):
+            try:
+                out = HELPER_IMPL[ht].parse(list(raw)).export()
+            except (ValueError, TypeError):
+                ctx.count('helper:rejects-raw')
+                continue
+            ctx.count('helper:normalises' if out != list(raw) else 'helper:identity')
+            ctx.case({'helper': ht.value, 'raw': raw}, nontrivial=True, sample_every=13)
+            try:
+                again = HELPER_IMPL[ht].parse(list(out)).export()
+            except Exception as e:
+                again = G.exc_str(e)
+            text = ', '.join(out)
+            split = [a.strip() for a in text.split(',')]
+            if split == ['']:
+                split = []
+            if again != out or split != out:
+                ctx.witness('helper-args', f'helper {ht.value}: exported arguments {out} are not a fixed point of parse/export (again {again}, split {split})',
+                            {'kind': 'helper', 'type': ht.value, 'raw': raw})
+
+
 def search(ctx):
     t0 = time.time()
     if ctx.evaluations == 0:      # driver missing: the long-string oracle still runs on the implementation
@@ -1530,6 +1571,7 @@ def search(ctx):
     guard(ctx, 'generated FGDs', search_generated, ctx)
     guard(ctx, 'shipped database', search_shipped, ctx)
     guard(ctx, 'histories with in-place edits', search_histories, ctx)
+    guard(ctx, 'typed helpers', search_helpers, ctx)
     shrink(ctx)
     ctx.notes.append(f'search wall {time.time() - t0:.1f}s')
 
@@ -1618,6 +1660,8 @@ def replay(ctx, payload):
             print('  ->', p_)
         for p_ in probs:
             ctx.witness('history', p_, inp)
+    elif kind == 'helper':
+        search_helpers(ctx)
     elif kind == 'part':
         ctx.tier = 'quick'
         guard(ctx, 'generated FGDs', search_generated, ctx)
